@@ -37,6 +37,8 @@ type Sim struct {
 	io     bool
 
 	strictKeysend bool
+	provoke       bool // this run may walk into known lnd findings
+	ioEvent       bool // the event being generated carries an injected store fault
 
 	now    time.Time
 	height uint32
@@ -97,12 +99,14 @@ func Run(r *simcore.Run) {
 		MaxHtlcs:    []int{6, 10, 14}[t.CfgDraw(3)],
 		ContinueNum: []int{3, 5, 7}[t.CfgDraw(3)],
 	}
+	provoke := t.CfgDraw(8) == 7
 	r.Arm = arm
 	s := &Sim{
 		r: r, cfg: cfg, k: k, now: simStart, height: startHeight,
 		byKey: map[invoices.CircuitKey]*HtlcSpec{}, refSeen: map[string]bool{},
 		nextID:        make([]uint64, cfg.Links),
 		strictKeysend: os.Getenv("VERIF_C15_STRICT_KEYSEND") != "",
+		provoke:       provoke,
 	}
 	switch arm {
 	case "kv/io", "sql/io":
@@ -113,6 +117,11 @@ func Run(r *simcore.Run) {
 	}
 	if r.Tier == "thorough" {
 		s.k.MaxSteps += 20
+	}
+	if os.Getenv("VERIF_C15_TIMING") != "" {
+		// debugging aid only: wall time per arm into (unhashed) counters
+		t0 := time.Now()
+		defer func() { r.Add("wall_us_"+arm, int64(time.Since(t0)/time.Microsecond)) }()
 	}
 	inBubble(r, s.main)
 }
@@ -136,7 +145,7 @@ func (s *Sim) main() {
 			w.Shutdown()
 		}
 	}()
-	r.Logf("config: arm=%s %s knobs=%+v", r.Arm, s.cfg, s.k)
+	r.Logf("config: arm=%s %s provoke-known=%v knobs=%+v", r.Arm, s.cfg, s.provoke, s.k)
 
 	for s.events < s.k.MaxSteps && r.Step() {
 		s.step()
@@ -237,6 +246,8 @@ func (s *Sim) step() {
 		}
 		base = append(base, "time")
 		b := base[r.Draw(len(base))]
+		s.ioEvent = true
+		defer func() { s.ioEvent = false }()
 		faults := []string{"failwrite", "crashafter", "crashbefore"}
 		if s.worlds[0].SQL {
 			faults = faults[:1]
@@ -601,6 +612,9 @@ func (s *Sim) windDown() {
 	}
 	r.Logf("wind-down: replay every HTLC once")
 	for _, h := range s.htlcs {
+		if !s.provoke && s.staleJIT(h) {
+			continue
+		}
 		s.events++
 		ev := &Event{No: s.events, Kind: "final-replay", Subs: []SubCmd{{Kind: "replay", H: h, Height: s.height}}}
 		var obss []*Obs
